@@ -29,6 +29,12 @@ func init() {
 			p := GenProg(r, pc)
 			sc := DefaultScen()
 			sc.WPos, sc.WUnk, sc.WBundleUnk = 0, 0, 0
+			cmdOnly := idx%3 == 2
+			if cmdOnly {
+				// require-order will be set on the final command only: positionals and unknown options given at the
+				// levels above it are ordinary arguments there and must come out in front of the stop token
+				sc.WPos, sc.WUnk = 2, 1
+			}
 			sc.TermPct = 0
 			sc.MaxItems = 6
 			sc.WCmd = 3
@@ -40,6 +46,18 @@ func init() {
 				if it.K == ICmd {
 					g.node = g.node.Children[it.Tok]
 				}
+			}
+			if cmdOnly {
+				// nothing but options and commands at the level that gets require-order (and everywhere when that is the root)
+				var keep []*Item
+				for _, it := range pre.Items {
+					if (it.K == IPos || it.K == IUnk) && (it.Level == g.node.Path || g.node.Path == "") {
+						continue
+					}
+					keep = append(keep, it)
+				}
+				pre.Items = keep
+				pre.Assemble()
 			}
 			lastOpen := len(pre.Items) > 0 && pre.Items[len(pre.Items)-1].Open
 			typedOpen := lastOpen && pre.Items[len(pre.Items)-1].K == IMulti && pre.Items[len(pre.Items)-1].Opt.Kind != KStrings
@@ -123,7 +141,7 @@ func init() {
 			// only on the command the stop token is given at
 			pROp := CloneProg(p)
 			where := "root"
-			if c := pROp.CmdAt(g.node.Path); idx%3 == 2 && g.node.Path != "" && c != nil {
+			if c := pROp.CmdAt(g.node.Path); cmdOnly && g.node.Path != "" && c != nil {
 				c.ReqOrder = true
 				where = "command-only"
 			} else {
